@@ -336,7 +336,23 @@ fn stmt_case(w: &mut impl Write, rng: &mut Rng, kind: u64) {
         0 => {
             let c = small_expr(rng);
             let (tt, te) = body(rng, "a");
-            let els = if rng.below(3) > 0 { Some(body(rng, "b")) } else { None };
+            let els = match rng.below(4) {
+                0 => None,
+                1 => {
+                    // else-if chain: the else branch is itself an if statement, in the else role
+                    let c2 = small_expr(rng);
+                    let (t2, _) = body(rng, "b");
+                    let tail = if rng.below(2) == 0 {
+                        let (t3, _) = body(rng, "d");
+                        format!(" else {t3}")
+                    } else {
+                        String::new()
+                    };
+                    let t = format!("if ({c2}) {t2}{tail}");
+                    Some((t.clone(), format!("stmt:{t}")))
+                }
+                _ => Some(body(rng, "b")),
+            };
             let text = match &els {
                 Some((et, _)) => format!("if ({c}) {tt} else {et}"),
                 None => format!("if ({c}) {tt}"),
